@@ -189,6 +189,9 @@ class Rules(LogicType.Rules):
             for n in self[PredNodes][branch]:
                 if n is node:
                     continue
+                if n.get('world') != w:
+                    # Identity is world-relative, only substitute at the same world.
+                    continue
                 s = self.sentence(n)
                 if pa in s.params:
                     p_old, p_new = pa, pb
